@@ -143,6 +143,9 @@ func (e *Engine) addFramePropObligations() {
 	e.configWriteObligations()
 	// ---- C14: observing the detail text does not change result, variables or generator ----
 	e.detailFrameObligations()
+	// ---- C01/C10: the VM's operand stack slots are written only by the evaluate invocation that owns them ----
+	e.stackPrivacyObligations()
+	e.vmRegisterPrivacyObligations()
 	_ = info
 }
 
@@ -548,4 +551,251 @@ func (e *Engine) detailFrameObligations() {
 	})
 	e.frameObl("frame:(*Context).GetDetailText/returns-cache", []string{"C14"}, cacheRet, e.posStr(fi.Decl.Pos()),
 		"GetDetailText returns the cached text it stored", "no `return ctx.detailCache`")
+}
+
+// stackPrivacyObligations justify ghostProtect(stack) in evaluate: fields of existing VMValue objects are assigned
+// only (a) by evaluate through an index into a []VMValue (its own operand stack, allocated per invocation), or
+// (b) by UnmarshalJSON on the value being decoded, which is not reachable from evaluate.
+func (e *Engine) stackPrivacyObligations() {
+	info := e.P.Info
+	var fis []*FuncInfo
+	for _, fi := range e.P.Funcs {
+		if fi.Obj != nil && fi.File != ContractsFileName && fi.File != GenFileName && !strings.HasSuffix(fi.File, "_test.go") {
+			fis = append(fis, fi)
+		}
+	}
+	sort.Slice(fis, func(i, j int) bool { return fis[i].Key < fis[j].Key })
+	isVMValue := func(t types.Type) bool {
+		if t == nil {
+			return false
+		}
+		if p, ok := t.Underlying().(*types.Pointer); ok {
+			t = p.Elem()
+		}
+		if _, ok := t.Underlying().(*types.Struct); !ok {
+			return false
+		}
+		return e.structName(t) == "VMValue"
+	}
+	var bad []string
+	writers := map[string]bool{}
+	for _, fi := range fis {
+		check := func(lhs ast.Expr) {
+			// x.TypeId / x.Value where x is a VMValue or *VMValue; *p = ... with p *VMValue; s[i] = ... with s []VMValue
+			switch l := lhs.(type) {
+			case *ast.SelectorExpr:
+				if sel := info.Selections[l]; sel != nil && sel.Kind() == types.FieldVal && isVMValue(info.TypeOf(l.X)) {
+					writers[fi.Key] = true
+					viaStack := false
+					if ix, ok := l.X.(*ast.IndexExpr); ok {
+						if st, ok := info.TypeOf(ix.X).Underlying().(*types.Slice); ok && isVMValue(st.Elem()) {
+							viaStack = true
+						}
+					}
+					// a local struct variable is not a heap object
+					if id, ok := l.X.(*ast.Ident); ok {
+						if v, ok := info.ObjectOf(id).(*types.Var); ok {
+							if _, isStruct := v.Type().Underlying().(*types.Struct); isStruct {
+								return
+							}
+						}
+					}
+					if !(viaStack && fi.Key == "(*Context).evaluate") && fi.Key != "(*VMValue).UnmarshalJSON" {
+						bad = append(bad, fi.Key+"@"+e.posStr(l.Pos()))
+					}
+				}
+			case *ast.StarExpr:
+				if isVMValue(info.TypeOf(l.X)) {
+					writers[fi.Key] = true
+					bad = append(bad, fi.Key+"@"+e.posStr(l.Pos()))
+				}
+			case *ast.IndexExpr:
+				if st, ok := info.TypeOf(l.X).Underlying().(*types.Slice); ok && isVMValue(st.Elem()) {
+					if _, isPtr := st.Elem().Underlying().(*types.Pointer); !isPtr {
+						writers[fi.Key] = true
+						if fi.Key != "(*Context).evaluate" {
+							bad = append(bad, fi.Key+"@"+e.posStr(l.Pos()))
+						}
+					}
+				}
+			}
+		}
+		ast.Inspect(fi.Decl.Body, func(n ast.Node) bool {
+			switch u := n.(type) {
+			case *ast.AssignStmt:
+				for _, l := range u.Lhs {
+					check(l)
+				}
+			case *ast.IncDecStmt:
+				check(u.X)
+			}
+			return true
+		})
+	}
+	e.frameObl("frame:stack-privacy/writers", []string{"C01", "C10"}, len(bad) == 0, "",
+		"fields of existing VMValue objects are assigned only by evaluate (through its own operand stack) and by UnmarshalJSON (on the value being decoded)", "other writers: "+strings.Join(bad, ", "))
+	// UnmarshalJSON is not reachable from evaluate through static calls
+	ev := e.P.Funcs["(*Context).evaluate"]
+	um := e.P.Funcs["(*VMValue).UnmarshalJSON"]
+	reach := false
+	if ev != nil && um != nil && ev.Obj != nil && um.Obj != nil {
+		reach = e.reachable([]*types.Func{ev.Obj})[um.Obj]
+		if t := e.effects.Trans[ev.Obj]; t != nil {
+			if _, ok := t.ExtCalls["encoding/json.Unmarshal"]; ok {
+				reach = true
+			}
+		}
+	}
+	e.frameObl("frame:stack-privacy/no-decoder-in-vm", []string{"C01", "C10"}, !reach, "",
+		"the JSON decoder (the only other writer of VMValue fields) is not reachable from evaluate", "evaluate reaches UnmarshalJSON / json.Unmarshal")
+	// each evaluate invocation allocates its own stack
+	fresh := false
+	if ev != nil {
+		ast.Inspect(ev.Decl.Body, func(n ast.Node) bool {
+			if as, ok := n.(*ast.AssignStmt); ok && len(as.Lhs) == 1 && len(as.Rhs) == 1 {
+				if se, ok := as.Lhs[0].(*ast.SelectorExpr); ok && se.Sel.Name == "stack" {
+					if ce, ok := as.Rhs[0].(*ast.CallExpr); ok {
+						if id, ok := ce.Fun.(*ast.Ident); ok && id.Name == "make" {
+							fresh = true
+						}
+					}
+				}
+			}
+			return true
+		})
+	}
+	e.frameObl("frame:stack-privacy/fresh-stack", []string{"C01", "C10"}, fresh, "",
+		"evaluate allocates a fresh operand stack for every invocation", "no `ctx.stack = make(...)` in evaluate")
+}
+
+// vmRegisterPrivacyObligations justify ghostProtectFields(ctx, "code", "codeIndex", "stack", "top") in evaluate:
+// these fields are assigned only on the receiver of evaluate/Parse/RunAfterParsed or on a context freshly created
+// with NewVM(), and no function reachable from evaluate runs Parse/Run/evaluate on anything but such a fresh context.
+func (e *Engine) vmRegisterPrivacyObligations() {
+	info := e.P.Info
+	regs := map[string]bool{"code": true, "codeIndex": true, "stack": true, "top": true}
+	var fis []*FuncInfo
+	for _, fi := range e.P.Funcs {
+		if fi.Obj != nil && fi.File != ContractsFileName && fi.File != GenFileName && !strings.HasSuffix(fi.File, "_test.go") {
+			fis = append(fis, fi)
+		}
+	}
+	sort.Slice(fis, func(i, j int) bool { return fis[i].Key < fis[j].Key })
+	var badW, badRun []string
+	ev := e.P.Funcs["(*Context).evaluate"]
+	var fromEval map[*types.Func]bool
+	if ev != nil && ev.Obj != nil {
+		fromEval = e.reachable([]*types.Func{ev.Obj})
+	}
+	for _, fi := range fis {
+		fresh := map[*types.Var]bool{}
+		ast.Inspect(fi.Decl.Body, func(n ast.Node) bool {
+			if as, ok := n.(*ast.AssignStmt); ok {
+				for i, r := range as.Rhs {
+					if ce, ok := r.(*ast.CallExpr); ok {
+						if id, ok := ce.Fun.(*ast.Ident); ok && id.Name == "NewVM" && i < len(as.Lhs) {
+							if l, ok := as.Lhs[i].(*ast.Ident); ok {
+								if v, ok := info.ObjectOf(l).(*types.Var); ok {
+									fresh[v] = true
+								}
+							}
+						}
+					}
+				}
+			}
+			return true
+		})
+		var recvVar *types.Var
+		if fi.Decl.Recv != nil && len(fi.Decl.Recv.List) == 1 && len(fi.Decl.Recv.List[0].Names) == 1 {
+			recvVar, _ = info.Defs[fi.Decl.Recv.List[0].Names[0]].(*types.Var)
+		}
+		isCtx := func(t types.Type) bool {
+			return t != nil && strings.TrimPrefix(e.typeStr(t), "*") == "Context"
+		}
+		// aliases of the receiver (e := ctx)
+		alias := map[*types.Var]bool{}
+		if recvVar != nil {
+			alias[recvVar] = true
+			ast.Inspect(fi.Decl.Body, func(n ast.Node) bool {
+				if as, ok := n.(*ast.AssignStmt); ok && len(as.Lhs) == len(as.Rhs) {
+					for i := range as.Lhs {
+						if l, ok := as.Lhs[i].(*ast.Ident); ok {
+							if r, ok := as.Rhs[i].(*ast.Ident); ok {
+								if rv, ok := info.ObjectOf(r).(*types.Var); ok && alias[rv] {
+									if lv, ok := info.ObjectOf(l).(*types.Var); ok {
+										alias[lv] = true
+									}
+								}
+							}
+						}
+					}
+				}
+				return true
+			})
+		}
+		checkW := func(lhs ast.Expr) {
+			se, ok := lhs.(*ast.SelectorExpr)
+			if !ok || !regs[se.Sel.Name] || !isCtx(info.TypeOf(se.X)) {
+				return
+			}
+			base, _ := se.X.(*ast.Ident)
+			okW := false
+			if base != nil {
+				if v, ok := info.ObjectOf(base).(*types.Var); ok {
+					if fresh[v] {
+						okW = true
+					}
+					if alias[v] && (fi.Key == "(*Context).evaluate" || fi.Key == "(*Context).Parse" || fi.Key == "(*Context).RunAfterParsed") {
+						okW = true
+					}
+				}
+			}
+			if !okW {
+				badW = append(badW, fi.Key+"@"+e.posStr(lhs.Pos()))
+			}
+		}
+		ast.Inspect(fi.Decl.Body, func(n ast.Node) bool {
+			switch u := n.(type) {
+			case *ast.AssignStmt:
+				for _, l := range u.Lhs {
+					checkW(l)
+				}
+			case *ast.IncDecStmt:
+				checkW(u.X)
+			case *ast.CallExpr:
+				if fromEval == nil || !fromEval[fi.Obj] {
+					return true
+				}
+				se, ok := u.Fun.(*ast.SelectorExpr)
+				if !ok || !isCtx(info.TypeOf(se.X)) {
+					return true
+				}
+				switch se.Sel.Name {
+				case "Run", "Parse", "RunAfterParsed", "evaluate":
+					okR := false
+					if id, ok := se.X.(*ast.Ident); ok {
+						if v, ok := info.ObjectOf(id).(*types.Var); ok && fresh[v] {
+							okR = true
+						}
+						// Run calls Parse and RunAfterParsed on its own receiver: allowed when Run itself is only
+						// ever called on fresh contexts (checked at Run's call sites)
+						if v, ok := info.ObjectOf(id).(*types.Var); ok && alias[v] && fi.Key == "(*Context).Run" {
+							okR = true
+						}
+						if v, ok := info.ObjectOf(id).(*types.Var); ok && alias[v] && fi.Key == "(*Context).RunAfterParsed" && se.Sel.Name == "evaluate" {
+							okR = true
+						}
+					}
+					if !okR {
+						badRun = append(badRun, fi.Key+" calls "+se.Sel.Name+"@"+e.posStr(u.Pos()))
+					}
+				}
+			}
+			return true
+		})
+	}
+	e.frameObl("frame:vm-registers-privacy/writers", []string{"C01", "C10"}, len(badW) == 0, "",
+		"Context.code/codeIndex/stack/top are assigned only on the receiver of evaluate/Parse/RunAfterParsed or on a context fresh from NewVM()", "other writers: "+strings.Join(badW, ", "))
+	e.frameObl("frame:vm-registers-privacy/no-reentry", []string{"C01", "C10"}, len(badRun) == 0, "",
+		"no function reachable from evaluate runs Parse/Run/evaluate on a context other than one fresh from NewVM()", strings.Join(badRun, ", "))
 }
